@@ -123,7 +123,12 @@ class STIXdatetime(dt.datetime):
                     self.year, self.month, self.day, self.hour, self.minute,
                     self.second, self.microsecond, self.tzinfo, fold=self.fold,
                 ),
-                self.precision.name, self.precision_constraint.name,
+                # (instances made by datetime's own methods, e.g. replace(),
+                # have no settings: the defaults)
+                getattr(self, "precision", Precision.ANY).name,
+                getattr(
+                    self, "precision_constraint", PrecisionConstraint.EXACT,
+                ).name,
             ),
         )
 
